@@ -27,20 +27,20 @@ import (
 // every blocking point is a simhook call (ocimem, and ocimem behind
 // ociserver/ociclient over the synchronous simulated transport).
 type Sched struct {
-	env     *Env
-	tasks   []*Task
-	cur     *Task
+	env   *Env
+	tasks []*Task
+	cur   *Task
 	// ownership tables are slices scanned linearly: the runtime's map routines
 	// report their accesses to the race detector even when called from norace code
-	locks []lockRec
-	aborted bool
-	maxStep int
-	seq     int64
-	deadlk  string
+	locks     []lockRec
+	aborted   bool
+	maxStep   int
+	seq       int64
+	deadlk    string
 	abortedBy *Task
-	doneW   int
-	doneR   int
-	wg      sync.WaitGroup
+	doneW     int
+	doneR     int
+	wg        sync.WaitGroup
 }
 
 // EngineB is true in the build that runs under the race detector (mode B).
